@@ -107,6 +107,7 @@ func buildTagFields(rt reflect.Type, out, pretty, embedded, omitEmpty bool) (fa 
 			}
 		} else {
 			asString := false
+			omit := omitEmpty // omitempty applies to the tagged field only
 			key := f.Name
 			if tag, ok := f.Tag.Lookup("json"); ok && 0 < len(tag) {
 				parts := strings.Split(tag, ",")
@@ -125,13 +126,18 @@ func buildTagFields(rt reflect.Type, out, pretty, embedded, omitEmpty bool) (fa 
 				for _, p := range parts[1:] {
 					switch p {
 					case "omitempty":
-						omitEmpty = true
+						omit = true
 					case "string":
 						asString = true
 					}
 				}
 			}
-			fa = append(fa, newFinfo(&f, key, omitEmpty, asString, pretty, embedded))
+			fi := newFinfo(&f, key, omit, asString, pretty, embedded)
+			if omit != omitEmpty && fi.elem != nil {
+				// The plan of a nested struct follows the OmitEmpty option, not this field's tag.
+				fi.elem = newFinfo(&f, key, omitEmpty, asString, pretty, embedded).elem
+			}
+			fa = append(fa, fi)
 		}
 	}
 	return
